@@ -146,7 +146,7 @@ func Load(o Options) (*Program, error) {
 			P.nInstr += len(b.Instrs)
 			for _, ins := range b.Instrs {
 				if ci, ok := ins.(ssa.CallInstruction); ok {
-					if c := ci.Common().StaticCallee(); c != nil {
+					if c := Callee(ci.Common()); c != nil {
 						P.Callers[c] = append(P.Callers[c], ci)
 					}
 				}
